@@ -74,7 +74,7 @@ func genCase(t *rapid.T) Case {
 	for i := 0; i < n; i++ {
 		kind := "retain"
 		if i > 0 {
-			kind = rapid.SampledFrom([]string{"retain", "read", "read", "read-goroutine", "read-conn", "write", "conn-retain", "conn-retain", "conn-read", "conn-read", "retain-odd", "reserialize", "unmarshal", "answer", "echo", "buf-retain", "buf-read", "buf-read"}).Draw(t, "kind")
+			kind = rapid.SampledFrom([]string{"retain", "read", "read", "read-goroutine", "read-conn", "write", "conn-retain", "conn-retain", "conn-read", "conn-read", "retain-odd", "reserialize", "unmarshal", "answer", "echo", "marshal-echo", "buf-retain", "buf-read", "buf-read"}).Draw(t, "kind")
 		}
 		var m gen.Msg
 		m.Flags, m.Code, m.App, m.HbH, m.E2E = cat.Header(t)
@@ -266,6 +266,22 @@ func runCase(c Case) *ev.Failure {
 				r.str = m.String()
 				kept = append(kept, r)
 			}
+		case "marshal-echo":
+			// the same through Marshal: a struct whose []*diam.AVP field holds the AVPs of a kept message
+			for _, r := range kept {
+				a := r.m.Answer(2001)
+				if c.Dict.Name == "default" {
+					a.Marshal(&struct {
+						Echo []*diam.AVP `avp:"Host-IP-Address"`
+					}{Echo: r.m.AVP})
+				} else {
+					a.Marshal(&struct {
+						Echo []*diam.AVP `avp:"B-Address"`
+					}{Echo: r.m.AVP})
+				}
+				var w bytes.Buffer
+				a.WriteTo(&w)
+			}
 		case "echo":
 			// a relay / an answer that carries AVPs of the request: adding an AVP of a kept message
 			// to another message must not write into the kept one
@@ -441,7 +457,7 @@ func readThroughConn(p *dict.Parser, ref []byte, step int) *ev.Failure {
 
 var prop = ev.Register(&ev.Prop[Case]{
 	ID: "C06", Name: "retained",
-	Rule: "histories of {retain a decoded message, retain a message delivered by a long-lived library-served connection while that connection goes on receiving, read other content on the same goroutine / another goroutine / through a fresh or the same library-served in-memory connection, read / retain from one bytes.Buffer that the application refills, WriteTo, re-serialise, Unmarshal into a reused struct, Answer, echo the AVPs of a retained message into an answer with AddAVP / InsertAVP, retain a non-canonical wire image} with messages made of slice-backed types (Address IPv4/IPv6/other, IPv4, IPv6, OctetString, undefined codes, groups of them) on both sides of the 1 KiB pooled buffer; after EVERY step every retained message must still equal the abstract message it was decoded from (tree, re-serialisation, rendering, and the snapshot of code / flags / vendor id / Length / value bytes of every AVP taken when it was decoded); non-trivial = a retained message with a slice-backed value and body <= 1024 followed by a later read with body <= 1024",
+	Rule: "histories of {retain a decoded message, retain a message delivered by a long-lived library-served connection while that connection goes on receiving, read other content on the same goroutine / another goroutine / through a fresh or the same library-served in-memory connection, read / retain from one bytes.Buffer that the application refills, WriteTo, re-serialise, Unmarshal into a reused struct, Answer, echo the AVPs of a retained message into an answer with AddAVP / InsertAVP or through Marshal of a []*diam.AVP field, retain a non-canonical wire image} with messages made of slice-backed types (Address IPv4/IPv6/other, IPv4, IPv6, OctetString, undefined codes, groups of them) on both sides of the 1 KiB pooled buffer; after EVERY step every retained message must still equal the abstract message it was decoded from (tree, re-serialisation, rendering, and the snapshot of code / flags / vendor id / Length / value bytes of every AVP taken when it was decoded); non-trivial = a retained message with a slice-backed value and body <= 1024 followed by a later read with body <= 1024",
 	Gen:  genCase, Run: runCase,
 	Classify: func(c Case) (bool, []string) {
 		var cl []string
